@@ -21,14 +21,16 @@ proof fn lemma_opaque(a: Seq<u8>)
 
 //@fn src/etag.rs :: fn weak_eq props=C04,C14 implicit=C13 rules=R22,R30
 pub fn weak_eq(a: &[u8], b: &[u8]) -> (r: bool)
-    ensures /*@C04,C14 #weak_comparison*/ r == weak_eq_s(a@, b@),
+    ensures /*@C04 #weak_comparison*/ r == weak_eq_s(a@, b@),
+            /*@C14 #weak_eq_reflexive*/ a@ =~= b@ ==> r,
 //@body
 //@ at_start: proof { lemma_opaque(a@); lemma_opaque(b@); }
 //@end
 
 //@fn src/etag.rs :: fn strong_eq props=C04,C05,C14 implicit=C13 rules=R22
 pub fn strong_eq(a: &[u8], b: &[u8]) -> (r: bool)
-    ensures /*@C04,C05,C14 #strong_comparison*/ r == strong_eq_s(a@, b@),
+    ensures /*@C04,C05 #strong_comparison*/ r == strong_eq_s(a@, b@),
+            /*@C14 #strong_eq_reflexive_on_strong_tags*/ (a@ =~= b@ && !is_weak(a@)) ==> r,
 //@body
 //@ at_start: proof { lemma_opaque(a@); }
 //@end
@@ -54,7 +56,7 @@ impl<'a> List<'a> {
     //@fn src/etag.rs :: impl Iterator for List :: fn next props=C04,C14 implicit=C13 rules=R8b,R22,R26,R27,R31
     #[verifier::loop_isolation(false)]
     pub fn next(&mut self) -> (r: Option<&'a [u8]>)
-        ensures /*@C04,C14 #list_element_semantics*/ next_post(*old(self), r, *final(self)),
+        ensures /*@C04 #list_element_semantics*/ next_post(*old(self), r, *final(self)),
     //@body
     //@ at_start: let ghost rem0 = self.remaining@; proof { if rem0.len() >= 3 { lemma_first_at_shift(rem0, 3, 0, 0x22u8); lemma_first_at_bounds(rem0.subrange(3, rem0.len() as int), 0, 0x22u8); assert(rem0.subrange(0, 3) =~= seq![rem0[0], rem0[1], rem0[2]]); } if rem0.len() >= 1 { lemma_first_at_shift(rem0, 1, 0, 0x22u8); lemma_first_at_bounds(rem0.subrange(1, rem0.len() as int), 0, 0x22u8); assert(rem0.subrange(0, 1) =~= seq![rem0[0]]); } }
     //@ before "let Some(end) = end else": proof { lemma_first_at_bounds(rem0, 3, 0x22u8); lemma_first_at_bounds(rem0, 1, 0x22u8); }
